@@ -274,7 +274,31 @@ def rule_N2(ctx):
                                   'noise_floor / relative_error / '
                                   'standard_deviation setters',
                                   ctx.where(mod, st))
-    ctx.floor('C13.N2.writers', 3)
+    # ... and the setters themselves are invoked only by the constructor (an
+    # assignment `x.noise_floor = ..` / `x.standard_deviation = ..` anywhere
+    # else in the package changes the noise model behind the user's back)
+    nset = 0
+    for rel in ctx.repo.package_files():
+        mod = ctx.repo.mod(rel)
+        for st in ast.walk(mod.tree):
+            if not isinstance(st, (ast.Assign, ast.AugAssign, ast.Delete)):
+                continue
+            for t in store_targets(st):
+                if isinstance(t, ast.Attribute) and t.attr in (
+                        'noise_floor', 'relative_error',
+                        'standard_deviation'):
+                    nset += 1
+                    qn = au.qualname(st)
+                    ok = rel == SURV and qn == 'Survey.__init__' and \
+                        t.attr != 'standard_deviation'
+                    ctx.check('C13.N2.writers', f'{qn} `{au.stext(st)[:60]}`',
+                              ok, f'`{t.attr}` is assigned inside the '
+                              'package (outside the constructor): noise '
+                              'floor, relative error and standard deviation '
+                              'may change only by an explicit assignment of '
+                              'the user', ctx.where(mod, st))
+    ctx.need(nset >= 2, 'constructor assignments of noise parameters not found')
+    ctx.floor('C13.N2.writers', 5)
     # add_noise writes only data[add_to]
     sm = ctx.repo.mod(SURV)
     an = sm.method('Survey', 'add_noise')
